@@ -499,7 +499,7 @@ pub fn run(tier: Tier, seed: u64, replay: Option<Value>) -> i32 {
             }
         };
     }
-    let cfg = LoopCfg { cases: tier.pick(2500, 40000), workers: 7, max_shrink_execs: 150, max_violations: std::env::var("FVH_MAX_VIOL").ok().and_then(|s| s.parse().ok()).unwrap_or(10) };
+    let cfg = LoopCfg { cases: tier.pick(2500, 20000), workers: 7, max_shrink_execs: 150, max_violations: std::env::var("FVH_MAX_VIOL").ok().and_then(|s| s.parse().ok()).unwrap_or(10) };
     let max_blocks = tier.pick(14, 30);
     crate::driver::run_cases(&ev, &cfg, || history(max_blocks), mk, |wk, s: &Vec<Step>| exec(wk, s), |s| runner::steps2j(s));
     let e = ev.lock().unwrap();
